@@ -35,8 +35,8 @@ ASSUMPTIONS = [
     "integral = sum over voxels of data * prod(dimensions / shape), per time step and component",
 ]
 FLOORS = {
-    "quick": {"resize_conserves": 500, "resize_object_reused": 150, "resize_options_with_key_prefix": 120, "image_born_as_uint8_then_converted": 150, "refine_coarsen_identity": 100, "coarsen_conserves": 100, "axis_reduction": 400, "extrusion": 60, "superpose": 150},
-    "thorough": {"resize_conserves": 6000, "resize_object_reused": 1500, "resize_options_with_key_prefix": 1200, "image_born_as_uint8_then_converted": 1500, "refine_coarsen_identity": 1200, "coarsen_conserves": 1200, "axis_reduction": 5000, "extrusion": 700, "superpose": 1800},
+    "quick": {"resize_conserves": 500, "resize_by_factors": 200, "resize_object_reused": 150, "resize_options_with_key_prefix": 120, "image_born_as_uint8_then_converted": 150, "refine_coarsen_identity": 100, "coarsen_conserves": 100, "axis_reduction": 400, "extrusion": 60, "superpose": 150},
+    "thorough": {"resize_conserves": 6000, "resize_by_factors": 2000, "resize_object_reused": 1500, "resize_options_with_key_prefix": 1200, "image_born_as_uint8_then_converted": 1500, "refine_coarsen_identity": 1200, "coarsen_conserves": 1200, "axis_reduction": 5000, "extrusion": 700, "superpose": 1800},
 }
 
 
@@ -180,6 +180,47 @@ def run_shard(spec, R):
                         i_in, mag = integral(arr, dims, 2)
                         R.check(bool(np.all(np.abs(np.asarray(gi, float) - i_in) <= rt * np.maximum(mag, 1e-300))), "resize_conserves", {**case, "via": "Geometry.integrate"})
                 R.sig(["resize", list(shape), list(tshape), payload, np.dtype(dtype).name, conservative], tshape != shape, cls=f"resize/{kind}/{payload}")
+
+        # ============================== the target given by factors (fx along the columns, fy along the rows): the
+        # target shape is the rounded product; pure down-sampling or integer up-sampling as above
+        for rep in range(3):
+            shape = (int(rng.integers(1, 25)), int(rng.integers(1, 25)))
+            if rng.random() < 0.7:
+                fy, fx = (float(rng.choice([0.5, 0.25, 0.2, 0.75, 1.0, 1.0 / 3.0])) for _ in range(2))
+                kind = "down"
+            else:
+                fy, fx = (float(rng.choice([1, 2, 3])) for _ in range(2))
+                kind = "up"
+            tshape = (int(round(fy * shape[0])), int(round(fx * shape[1])))
+            if min(tshape) < 1:
+                continue
+            payload = str(rng.choice(["scalar", "vector", "series"]))
+            img, arr, dims = image(shape, payload=payload, dtype=np.float64)
+            conservative = bool(rng.integers(0, 2))
+            general = fx == fy and rng.random() < 0.5
+            opts = {"resize": fx} if general else {"resize x": fx, "resize y": fy}
+            if not general and rng.random() < 0.5:
+                opts = {"fx": fx, "fy": fy}
+            case = {"op": "resize_by_factors", "shape": list(shape), "options": dict(opts), "expected_target": list(tshape), "payload": payload, "conservative": conservative,
+                    "products_integral": bool(float(fy * shape[0]).is_integer() and float(fx * shape[1]).is_integer())}
+            ok, out = R.guarded("resize", lambda: darsia.Resize(interpolation="inter_area", **opts, **({"resize conservative": True} if conservative else {}))(img))
+            if ok:
+                oarr = out.img
+                good = oarr.shape == tuple(tshape) + arr.shape[2:]
+                det = {"out_shape": list(oarr.shape)}
+                if good:
+                    if conservative:
+                        s_in, s_out = np.sum(arr, axis=(0, 1)), np.sum(oarr.astype(float), axis=(0, 1))
+                        mag = np.sum(np.abs(arr), axis=(0, 1))
+                        det = {"sum_in": np.asarray(s_in).tolist(), "sum_out": np.asarray(s_out).tolist()}
+                    else:
+                        s_in, mag = integral(arr, dims, 2)
+                        s_out, _ = integral(oarr, dims, 2)
+                        det = {"integral_in": np.asarray(s_in).tolist(), "integral_out": np.asarray(s_out).tolist()}
+                    good = bool(np.all(np.abs(s_out - s_in) <= 1e-5 * np.maximum(mag, 1e-300))) and list(out.dimensions) == list(dims)
+                R.check(good, "resize_by_factors", lambda: {**case, **det}, group=f"{kind}/{conservative}/{case['products_integral']}")
+                R.check(np.array_equal(img.img, arr), "input_untouched", case)
+            R.sig(["resize_by_factors", list(shape), fx, fy, conservative], tshape != shape, cls=f"resize_by_factors/{kind}")
 
         # =================================================== uniform refinement
         for rep in range(3):
